@@ -927,7 +927,7 @@ impl Runner {
         let key = skey(&obs);
         let hit = succs.iter().find(|(s2, _)| self.g.skeys[*s2] == key).cloned();
         for b in &bad {
-            wrong.push(format!("raw.{}", b.split('.').next().unwrap_or("?")));
+            wrong.push(format!("raw.{}", b.split(|c| c == '.' || c == ' ').next().unwrap_or("?")));
         }
         let (next, dev) = match hit {
             Some(h) => h,
@@ -1323,9 +1323,10 @@ fn candidate_ops(abs: &Value, towers: &[String], locators: &[String], rng: &mut 
     for t in towers {
         let idx = num(t) as u64;
         let m = find(&abs["mem"], |x| x["t"] == t.as_str());
-        let reg = |s: u64, e: u64| json!({"k": "register", "t": t, "port": 9000 + e, "slots": s, "start": 10000 + e, "expiry": e});
+        // expiries of different towers collide, starts / addresses / slots do not
+        let reg = |s: u64, e: u64| json!({"k": "register", "t": t, "port": 10000 * idx + e, "slots": s, "start": 100000 * idx + e, "expiry": e});
         if m.is_empty() {
-            ops.push((12, reg(1 + idx, 100 * (idx - 1) + 1)));
+            ops.push((12, reg(1 + idx, idx)));
             for c in ["receipt", "pending", "invalid", "misbehaving", "remove_pending"] {
                 ops.push((1, json!({"k": "ghost", "t": t, "l": locators[rng.gen_range(0..locators.len())], "call": c})));
             }
